@@ -104,12 +104,15 @@ def tok_region(p):
 
 # ------------------------------------------------------------------ Cython source
 def src_e(p, e):
+    """integer programs: every constant and every operator result is cast to the common type T, so
+    that C evaluates each operator in T (Cython types integer literals as C long: without the casts
+    `-1 < u` or `u * 255 < v` on 32-bit variables would be evaluated in 64 bits)"""
     if e[0] == "c":
-        return "(%d)" % e[1]
+        return "(%d)" % e[1] if p.ftype else "(<%s>(%d))" % (p.T, e[1])
     if e[0] == "v":
         return "%s_v%d" % (p.name, e[1])
     x, y = src_e(p, e[2]), src_e(p, e[3])
-    if e[1] in ("lt", "eq"):
+    if e[1] in ("lt", "eq") or not p.ftype:
         return "(<%s>(%s %s %s))" % (p.vt(1), x, BOPS[e[1]], y)
     return "(%s %s %s)" % (x, BOPS[e[1]], y)
 
